@@ -36,7 +36,7 @@ fn spec(t: Tier) -> Spec {
     Spec {
         id: "C02",
         level: "exploration",
-        rule: format!("every ordered forest with <= {full} nodes over leaf labels {:?} (and <= {red} nodes over {:?}) is materialised under r/ on tmpfs and walked by find_main under every configuration: follow in {{-P,-H,-L,-follow,-H -follow}} x (mindepth,maxdepth) in {{absent,0,1,2,3}}^2 (incl. min>max) x -depth on/off x -sorted on/off x 8 starting-point lists (dir, link to dir, dangling link, file, link to file, the same root twice, two roots, missing+dir); the -print0 output must equal the reference walker's visit list (sequence with -sorted, multiset + parent/child order without); diagnostics required for cycle-closing links and missing roots; non-trivial = (tree,config) whose expected visit list differs from the plain -P listing of r; scale slice: a chain 12 directories deep (file at every level, a link to an outside directory at level 5, a link back to the top at level 9), a directory of 300 files and 20 sub-directories, and link chains (l1 -> l2 -> l3 -> directory, k1 -> k2 -> k1), each under -P/-H/-L x mindepth in {{absent,0,3,5,11,12,13,2^32,2^32+3}} x maxdepth in {{absent,0,4,11,12,13,2^32,2^32+4,2^63-1}} x -depth on/off from r and lr; fault slice: trees with one or two mode-000 directories walked by the hooks-off binary running as uid 65534",
+        rule: format!("every ordered forest with <= {full} nodes over leaf labels {:?} (and <= {red} nodes over {:?}) is materialised under r/ on tmpfs and walked by find_main under every configuration: follow in {{-P,-H,-L,-follow,-H -follow}} x (mindepth,maxdepth) in {{absent,0,1,2,3}}^2 (incl. min>max) x -depth on/off x -sorted on/off x 8 starting-point lists (dir, link to dir, dangling link, file, link to file, the same root twice, two roots, missing+dir); the -print0 output must equal the reference walker's visit list (sequence with -sorted, multiset + parent/child order without); diagnostics required for cycle-closing links and missing roots; non-trivial = (tree,config) whose expected visit list differs from the plain -P listing of r; scale slice: a chain 12 directories deep (file at every level, a link to an outside directory at level 5, a link back to the top at level 9), a directory of 300 files and 20 sub-directories, and link chains (l1 -> l2 -> l3 -> directory, k1 -> k2 -> k1), each under -P/-H/-L x mindepth in {{absent,0,3,5,11,12,13,2^32,2^32+3}} x maxdepth in {{absent,0,4,11,12,13,2^32,2^32+4,2^63-1}} x -depth on/off from r and lr; low-descriptor slice: a chain 40 directories deep walked by the binary under RLIMIT_NOFILE = 16 (-P/-L, -depth on/off, -sorted on/off); fault slice: trees with one or two mode-000 directories walked by the hooks-off binary running as uid 65534",
             LABELS.iter().map(|l| l.code()).collect::<Vec<_>>(), LABELS_REDUCED.iter().map(|l| l.code()).collect::<Vec<_>>()),
         bound: json!({"max_nodes_full_labels": full, "max_nodes_reduced_labels": red, "configs_per_tree": 5*25*2*2*8}),
         assumptions: vec![
@@ -403,7 +403,50 @@ fn run(ctx: &mut Ctx) {
     }
     ctx.rep.count("trees_reduced_labels", seen_reduced_dupe);
     scale_slice(ctx);
+    if ctx.shard == 6 % ctx.nshards {
+        low_nofile_slice(ctx);
+    }
     fault_slice(ctx);
+}
+
+/// A chain 40 directories deep (a file at every level) walked by the find binary with
+/// RLIMIT_NOFILE = 16: find must not need one open descriptor per level. -P/-L, pre-order and
+/// -depth, -sorted on/off.
+fn low_nofile_slice(ctx: &mut Ctx) {
+    use std::ffi::OsStr;
+    let mut fs = Fs::new();
+    let r = fs.add(0, "r", K::Dir);
+    let mut cur = r;
+    for _ in 0..40 {
+        fs.add(cur, "f", K::File);
+        cur = fs.add(cur, "d", K::Dir);
+    }
+    fs.add(cur, "leaf", K::File);
+    let sbx = ctx.sbx.clone();
+    crate::sandbox::clear_dir(&sbx);
+    if let Err(e) = crate::sandbox::materialize(&fs, 0, &sbx) {
+        ctx.rep.machinery(format!("tree builder (deep chain): {e}"));
+        return;
+    }
+    for follow in [Follow::P, Follow::L] {
+        for depth in [false, true] {
+            for sorted in [true, false] {
+                let cfg = Cfg { follow, follow_word: false, h_flag_too: false, min: None, max: None, depth, sorted, roots: vec!["r"] };
+                let exp = expect(&fs, &cfg);
+                let argv = cfg.argv();
+                let aos: Vec<&OsStr> = argv.iter().map(OsStr::new).collect();
+                let o = crate::binrun::run(&crate::binrun::repo_bin("find"), &aos, &sbx, &crate::binrun::Opts { nofile: Some(16), timeout_s: 60, ..Default::default() });
+                let got = FindOut { code: if o.died() { Err(format!("died: code {:?} signal {:?}", o.code, o.signal)) } else { Ok(o.code.unwrap_or(-1)) }, out: o.out, err: o.err };
+                ctx.rep.evaluations += 1;
+                ctx.rep.nontrivial += 1;
+                ctx.rep.count("low_descriptor_limit_runs", 1);
+                if let Some((sig, detail)) = judge(&cfg, &exp, &got) {
+                    let d: String = detail.chars().take(900).collect();
+                    ctx.rep.violation(&format!("{sig} [RLIMIT_NOFILE 16, 40 levels]"), format!("find {:?} with RLIMIT_NOFILE=16 on a chain 40 directories deep\n{d}", argv), json!({"prop":"C02","nofile":true}));
+                }
+            }
+        }
+    }
 }
 
 /// Three hand-built trees far beyond the exhaustive bound: a chain 12 directories deep (a file at
@@ -665,6 +708,10 @@ fn visible(fs: &Fs, n: usize, path: String, unreadable: &[usize], out: &mut Vec<
 }
 
 fn replay(case: &Value, ctx: &mut Ctx) -> Option<String> {
+    if case["nofile"] == true {
+        low_nofile_slice(ctx);
+        return ctx.rep.violations.keys().next().cloned();
+    }
     if case["scale"] == true {
         let (s0, n0) = (ctx.shard, ctx.nshards);
         for k in 0..3 {
